@@ -610,6 +610,14 @@ class Dict(dict, base.Symbolic, pg_typing.CustomTyping):
           transform_fn=base.symbolic_transform_fn(self._allow_partial),
           root_path=utils.KeyPath(name, self.sym_path),
       )
+    if (isinstance(value, base.Symbolic)
+        and value.sym_parent is None
+        and self._sym_parent_for_children() is None
+        and any(v is value for k, v in self.sym_items() if k != name)):
+      # While the attribute dict of an object under construction has no parent
+      # yet, a value that it already holds under another key looks detached:
+      # store a copy so that one node never sits in two places.
+      value = value.clone()
     return self._relocate_if_symbolic(name, value)
 
   @property
